@@ -67,7 +67,10 @@ def one_call(sut, call, presented):
     den = call.get("den", 1)
     if den != 1:
         param = param / den
-    o = sut.call(call["alg"], param, presented, call.get("outputtype", "Partition"), call.get("opts"))
+    if call.get("ticks") is not None:
+        o = sut.call_with_ticks(call["alg"], param, presented, call.get("outputtype", "Partition"), call.get("opts"), call["ticks"])
+    else:
+        o = sut.call(call["alg"], param, presented, call.get("outputtype", "Partition"), call.get("opts"))
     d = o.describe()
     d["args_untouched"] = sut.snapshot(presented) == before
     return d
